@@ -7,6 +7,39 @@ RUNNING_STATES = ('STARTING', 'BACKOFF', 'RUNNING')
 BUSY = RUNNING_STATES + ('STOPPING',)
 
 
+def _rule_of(config, ns):
+    """ The application and program rules of a namespec in the GENERATED rules document (not Supvisors' objects). """
+    app_name, _, pname = ns.partition(':')
+    for app in config.get('rules', {}).get('applications', []):
+        if app.get('name') != app_name:
+            continue
+        for prog in app.get('programs', []):
+            if prog.get('name') == pname or (prog.get('pattern') and prog['pattern'] in pname):
+                return app, prog
+        return app, None
+    return None, None
+
+
+def proc_stop_seq(config, ns):
+    """ Explicit stop_sequence if present, else the start_sequence, else 0 (documented inheritance). """
+    _app, prog = _rule_of(config, ns)
+    if prog is None:
+        return 0
+    if prog.get('stop_sequence') is not None:
+        return prog['stop_sequence']
+    return prog.get('start_sequence') or 0
+
+
+def app_stop_seq(config, app_name):
+    app, _ = _rule_of(config, app_name + ':')
+    if app is None:
+        return 0
+    if app.get('stop_sequence') is not None:
+        return app['stop_sequence']
+    return app.get('start_sequence') or 0
+
+
+
 class StopRequests(Observer):
     prop = 'C09'
 
@@ -57,7 +90,7 @@ class StopRequests(Observer):
         if proc is None:
             return
         self._probe('stop_request')
-        seq = proc.rules.stop_sequence
+        seq = proc_stop_seq(sim.config, ns)
         detail = {'requester': s.nick, 'target': identifier, 'process': ns, 'stop_sequence': seq}
         with frozen(sim, s):
             shown = proc.serial()
@@ -66,7 +99,7 @@ class StopRequests(Observer):
                          'stop-where-not-running')
         # higher stop_sequence of the same application: not running / stopping any more (view of S and truth)
         for q in app.processes.values():
-            if q is proc or q.rules.stop_sequence <= seq:
+            if q is proc or proc_stop_seq(sim.config, q.namespec) <= seq:
                 continue
             with frozen(sim, s):
                 qs = q.serial()
@@ -103,15 +136,15 @@ class StopRequests(Observer):
                         # of the same instance that was aborted) is skipped by process_job and not waited
                         sig = 'higher-sequence-still-running:process-already-STOPPING-not-waited'
                     self.violate('higher-sequence-still-running',
-                                 dict(detail, other=q.namespec, other_sequence=q.rules.stop_sequence, other_state=real,
+                                 dict(detail, other=q.namespec, other_sequence=proc_stop_seq(sim.config, q.namespec), other_state=real,
                                       where=sorted(where), asked=sorted(asked), kind=kind), sig)
                     break
         # between applications, in an ending plan driven by this instance
         state = s.supvisors.fsm.state.name
         if state in ('RESTARTING', 'SHUTTING_DOWN'):
-            a_seq = app.rules.stop_sequence
+            a_seq = app_stop_seq(sim.config, app.application_name)
             for other in ctx.applications.values():
-                if other is app or other.rules.stop_sequence <= a_seq:
+                if other is app or app_stop_seq(sim.config, other.application_name) <= a_seq:
                     continue
                 planned = self.ending_view.get((s.nick, s.incarnation))
                 busy = [q.namespec for q in other.processes.values()
@@ -123,13 +156,13 @@ class StopRequests(Observer):
                 if busy and all(other.processes[b.split(':')[1]].state_string() == 'STOPPING' for b in busy):
                     self.violate('higher-application-still-running',
                                  dict(detail, app_stop_sequence=a_seq, other=other.application_name,
-                                      other_sequence=other.rules.stop_sequence, busy=busy),
+                                      other_sequence=app_stop_seq(sim.config, other.application_name), busy=busy),
                                  'higher-application-still-running:process-already-STOPPING-not-waited')
                     break
                 if busy:
                     self.violate('higher-application-still-running',
                                  dict(detail, app_stop_sequence=a_seq, other=other.application_name,
-                                      other_sequence=other.rules.stop_sequence, busy=busy),
+                                      other_sequence=app_stop_seq(sim.config, other.application_name), busy=busy),
                                  'higher-application-still-running')
                     break
         rec = {'s': s.nick, 'inc': s.incarnation, 'ns': ns, 'app': app_name, 'target': identifier,
@@ -172,7 +205,7 @@ class StopRequests(Observer):
                 continue
             levels = {r['seq'] for r in reqs if r['app'] == app_name}
             for q in app.processes.values():
-                if q.rules.stop_sequence not in levels:
+                if proc_stop_seq(sim.config, q.namespec) not in levels:
                     continue
                 if q.state_string() not in RUNNING_STATES:
                     continue
@@ -203,7 +236,7 @@ class StopRequests(Observer):
                         if own_start:
                             self.violate('same-sequence-not-together',
                                          {'requester': inst.nick, 'process': q.namespec, 'on': ident,
-                                          'stop_sequence': q.rules.stop_sequence},
+                                          'stop_sequence': proc_stop_seq(sim.config, q.namespec)},
                                          'same-sequence-not-together:own-start-in-flight-when-stop-plan-built')
                         else:
                             self._probe('copy_unknown_at_plan_time')
@@ -213,7 +246,7 @@ class StopRequests(Observer):
                         self._probe('same_level_checked')
                         self.violate('same-sequence-not-together',
                                      {'requester': inst.nick, 'process': q.namespec, 'on': ident,
-                                      'stop_sequence': q.rules.stop_sequence,
+                                      'stop_sequence': proc_stop_seq(sim.config, q.namespec),
                                       'asked': sorted((r['ns'], r['target']) for r in reqs)},
                                      'same-sequence-not-together')
                     elif not asked and ident in self._truly(q.namespec, RUNNING_STATES) and any(
@@ -222,7 +255,7 @@ class StopRequests(Observer):
                         # recorded finding (same mechanism as at process level)
                         self.violate('same-sequence-not-together',
                                      {'requester': inst.nick, 'process': q.namespec, 'on': ident,
-                                      'stop_sequence': q.rules.stop_sequence},
+                                      'stop_sequence': proc_stop_seq(sim.config, q.namespec)},
                                      'same-sequence-not-together:own-start-in-flight-when-stop-plan-built')
                         return
 
